@@ -28,6 +28,7 @@ import typing
 
 FAM = "mc.fixtures.c14.fam"
 FAM2 = "mc.fixtures.c14.fam2"
+FAM_LATE = "mc.fixtures.c14.late"  # NOT loaded by ensure_loaded(): imported in the middle of a case (family `late`)
 
 # token -> import path (the text given as class_path when named "by path")
 TOKENS = {
@@ -56,6 +57,11 @@ TOKENS = {
     "MidImpl": FAM + ".MidImpl",
     "BelowPrivate": FAM + ".BelowPrivate",
     "Diamond": FAM + ".Diamond",
+    # classes that become available after an earlier use of the library (module imported late)
+    "LateSub": FAM_LATE + ".LateSub",
+    "LateSubSub": FAM_LATE + ".LateSubSub",
+    "LateMidImpl": FAM_LATE + ".LateMidImpl",
+    "LateAbsImpl": FAM_LATE + ".LateAbsImpl",
     # **kwargs family
     "Kw": FAM + ".Kw",
     "KwSub": FAM + ".KwSub",
@@ -101,6 +107,8 @@ CLASS_TOKENS = [
     "Diamond", "Kw", "KwSub", "HoldOne", "HoldOpt", "HoldUnion", "HoldList",
     "HoldDict", "HoldDeep", "HoldSub", "HoldPair", "HoldPairR",
 ]  # fmt: skip
+# kept apart from CLASS_TOKENS: nothing may import their module as a side effect (see c14.token_of)
+LATE_TOKENS = ["LateSub", "LateSubSub", "LateMidImpl", "LateAbsImpl"]
 FUNC_TOKENS = ["make_sub", "make_base_str", "make_unrelated", "make_int", "make_untyped"]
 
 
@@ -120,6 +128,10 @@ def decl_type(name):
         return typing.List[f.Base]
     if name == "DictBase":
         return typing.Dict[str, f.Base]
+    if name == "ListKw":
+        return typing.List[f.Kw]
+    if name == "DictKw":
+        return typing.Dict[str, f.Kw]
     return getattr(f, name)
 
 
@@ -480,6 +492,8 @@ def assign(typ, prev, spec, trace, implicit=None):
                 trace["regiven"] = trace.get("regiven", 0) + 1
                 if not same and any(isinstance(s, dict) and s.get("c") is None for s in spec["list"]):
                     trace["classless_in_resized"] = True
+            if same:
+                _note_elem_dk(prev, trace)
             return [assign(payload, prev[i] if same else None, s, trace) for i, s in enumerate(spec["list"])]
         if "append" in spec:
             return (list(prev) if isinstance(prev, list) else []) + [assign(payload, None, spec["append"], trace)]
@@ -487,6 +501,7 @@ def assign(typ, prev, spec, trace, implicit=None):
             cur = list(prev) if isinstance(prev, list) else []
             if not cur:
                 return [assign(payload, None, spec["last"], trace)]
+            _note_elem_dk(cur[-1:], trace)
             cur[-1] = assign(payload, cur[-1], spec["last"], trace)
             return cur
         raise AssertionError(spec)
@@ -499,14 +514,23 @@ def assign(typ, prev, spec, trace, implicit=None):
                 trace["regiven"] = trace.get("regiven", 0) + 1
                 if not prev and any(isinstance(s, dict) and s.get("c") is None for s in spec["dict"].values()):
                     trace["classless_in_resized"] = True
+            _note_elem_dk([old.get(k) for k in spec["dict"]], trace)
             return {k: assign(payload, old.get(k), s, trace) for k, s in spec["dict"].items()}
         if "key" in spec:
             cur = dict(prev) if isinstance(prev, dict) else {}
             k, s = spec["key"]
+            _note_elem_dk([cur.get(k)], trace)
             cur[k] = assign(payload, cur.get(k), s, trace)
             return cur
         raise AssertionError(spec)
     raise AssertionError(kind)
+
+
+def _note_elem_dk(prevs, trace):
+    """A later source addresses container elements whose previous state carries dict_kwargs (recorded for the
+    signature only: `dict_kwargs of a container element` is a root cause of its own)."""
+    if any(isinstance(p, Node) and p.dk for p in prevs):
+        trace["elem_prev_dk"] = True
 
 
 def fill_defaults(state):
